@@ -163,7 +163,8 @@ def run(ck: Check):
                   "parent_is_the_current_context_itself": "C12:parent",
                   "closing_anothers_context_leaves_the_closers_own_alone": "C12:disturbed-by-another-task",
                   "callback_registered_from_elsewhere_runs_in_its_own_context": "C12:during-teardown",
-                  "task_started_on_an_outer_context_belongs_to_it": "C12:parent"})
+                  "task_started_on_an_outer_context_belongs_to_it": "C12:parent",
+                  "context_created_in_a_nested_component_has_a_plain_parent": "C12:parent"})
     sigs, n_fail = {}, 0
     for r in results:
         for sig, what in oracle(r):
